@@ -1,5 +1,8 @@
-(* C09 model driver.  One case per line:  calls <ncopies> <size of flush 1> <size of flush 2> ...
-   prints the calls of SaveModel.save_ops as  <call>:<copy index>:<byte count>  separated by blanks.
+(* C09 model driver.  One case per line:
+     calls <ncopies> <size of flush 1> <size of flush 2> ...
+        prints the calls of SaveModel.save_ops as  <call>:<copy index>:<byte count>  separated by blanks;
+     decode <hex bytes>
+        prints ok | eof | bad : NoConfModel.decode_class (CodecModel.decode without configuration file).
    Glue only: parsing, N <-> int, printing. *)
 open C09_ext
 
@@ -25,6 +28,11 @@ let () =
            let cs = save_calls (n_of_int n) (List.map (fun s -> n_of_int (int_of_string s)) sizes) in
            print_endline (String.concat " " (List.map (fun ((c, i), k) -> Printf.sprintf "%s:%d:%d" (call_str c) (int_of_n i) (int_of_n k)) cs))
          end
+       | ["decode"; hex] ->
+         let n = String.length hex / 2 in
+         let bytes = List.init n (fun i -> n_of_int (int_of_string ("0x" ^ String.sub hex (2 * i) 2))) in
+         print_endline (match int_of_n (decode_class bytes) with 0 -> "ok" | 1 -> "eof" | _ -> "bad")
+       | ["decode"] -> print_endline (match int_of_n (decode_class []) with 0 -> "ok" | 1 -> "eof" | _ -> "bad")
        | _ -> print_endline "badinput");
       flush stdout
     done
